@@ -39,10 +39,19 @@ UO = "unyt/unit_object.py"
 class Q:
     """abstract quantity: dimension vector + monomial formula"""
 
-    def __init__(self, dim, mono, isx=False):
+    def __init__(self, dim, mono, isx=False, kind="float"):
         self.dim = dim
         self.mono = mono
         self.isx = isx
+        # dtype kind lattice for the numbers: "int" (python / NumPy integer), "int?" (the input array: integer
+        # data is accepted), "float".  Used to find operations that have integer (truncating) semantics.
+        self.kind = kind
+
+
+def _join_kind(*ks):
+    if "float" in ks:
+        return "float"
+    return "int?" if "int?" in ks else "int"
 
 
 class DimTok:
@@ -68,7 +77,7 @@ class Interp:
             raise AnalysisError(f"{fn.where()}: _convert signature not (self, x, new_dims, ...)")
         self.selfname, self.xname, self.ndname = names[0], names[1], names[2]
         self.env = {
-            self.xname: Q(from_dv, Mono.atom("x"), isx=True),
+            self.xname: Q(from_dv, Mono.atom("x"), isx=True, kind="int?"),
             self.ndname: DimTok(to_dv),
         }
         defaults = dict(zip(names[::-1], a.defaults[::-1]))
@@ -90,12 +99,13 @@ class Interp:
         self.calls = 0
         self.r4_bad = []
         self.r5_bad = []
+        self.r8_bad = []
         self.type_errors = []
 
     # -- expressions ----------------------------------------------------------
     def ev(self, n, in_getout=False):
         if isinstance(n, ast.Constant) and isinstance(n.value, (int, float)):
-            return Q(ONE, Mono.num(n.value))
+            return Q(ONE, Mono.num(n.value), kind="int" if isinstance(n.value, int) and not isinstance(n.value, bool) else "float")
         if isinstance(n, ast.Name):
             if n.id in self.env:
                 v = self.env[n.id]
@@ -115,21 +125,28 @@ class Interp:
                 if n.attr not in self.consts:
                     raise AnalysisError(f"{self.fn.where(n)}: unknown physical constant {n.attr}")
                 key, dv = self.consts[n.attr]
-                return Q(dv, Mono.atom(key))
+                return Q(dv, Mono.atom(key), kind="float")
             raise AnalysisError(f"{self.fn.where(n)}: unsupported attribute {txt}")
         if isinstance(n, ast.BinOp):
             a, b = self.ev(n.left), self.ev(n.right)
             if isinstance(n.op, ast.Mult):
-                return Q(a.dim * b.dim, a.mono * b.mono)
+                return Q(a.dim * b.dim, a.mono * b.mono, kind=_join_kind(a.kind, b.kind))
             if isinstance(n.op, ast.Div):
-                return Q(a.dim / b.dim, a.mono / b.mono)
+                return Q(a.dim / b.dim, a.mono / b.mono, kind="float")
+            if isinstance(n.op, ast.FloorDiv):
+                if a.kind != "float" or b.kind != "float" or True:
+                    self.r8_bad.append((n, "floor division"))
+                return Q(a.dim / b.dim, Mono.opaque(), kind=_join_kind(a.kind, b.kind))
             if isinstance(n.op, ast.Pow):
                 p = self._numeric(n.right)
-                return Q(a.dim ** p, a.mono ** p)
+                k = a.kind if b.kind != "float" else "float"
+                if a.kind != "float" and p < 0:
+                    self.r8_bad.append((n, "negative power of possibly-integer data"))
+                return Q(a.dim ** p, a.mono ** p, kind=k)
             if isinstance(n.op, (ast.Add, ast.Sub)):
                 if a.dim != b.dim:
                     self.type_errors.append(f"{norm(n)}: adds {a.dim} and {b.dim}")
-                return Q(a.dim, Mono.opaque())
+                return Q(a.dim, Mono.opaque(), kind=_join_kind(a.kind, b.kind))
             raise AnalysisError(f"{self.fn.where(n)}: unsupported operator")
         if isinstance(n, ast.UnaryOp) and isinstance(n.op, ast.USub):
             a = self.ev(n.operand)
@@ -170,21 +187,34 @@ class Interp:
         # this call may overwrite x (when in_place): mark after operands were read
         self.written = True
         if op == "multiply" and len(args) == 2:
-            return Q(args[0].dim * args[1].dim, args[0].mono * args[1].mono)
+            return Q(args[0].dim * args[1].dim, args[0].mono * args[1].mono, kind=_join_kind(args[0].kind, args[1].kind))
         if op in ("true_divide", "divide") and len(args) == 2:
-            return Q(args[0].dim / args[1].dim, args[0].mono / args[1].mono)
+            return Q(args[0].dim / args[1].dim, args[0].mono / args[1].mono, kind="float")
         if op == "sqrt" and len(args) == 1:
-            return Q(args[0].dim ** Fraction(1, 2), args[0].mono ** Fraction(1, 2))
+            return Q(args[0].dim ** Fraction(1, 2), args[0].mono ** Fraction(1, 2), kind="float")
+        if op == "reciprocal" and len(args) == 1:
+            # NumPy: "For integer arguments with absolute value larger than 1 the result is always zero"
+            if args[0].kind != "float":
+                self.r8_bad.append((n, "np.reciprocal of possibly-integer data (integer division: 1/n is 0 for |n| > 1)"))
+            return Q(args[0].dim ** -1, args[0].mono ** -1, kind=args[0].kind)
+        if op == "floor_divide" and len(args) == 2:
+            self.r8_bad.append((n, "np.floor_divide"))
+            return Q(args[0].dim / args[1].dim, Mono.opaque(), kind=_join_kind(args[0].kind, args[1].kind))
+        if op == "square" and len(args) == 1:
+            return Q(args[0].dim ** 2, args[0].mono ** 2, kind=args[0].kind)
         if op == "power" and len(args) == 2:
             p = args[1]
             if not (p.dim == ONE and not p.mono.is_opaque and not p.mono.atoms):
                 raise AnalysisError(f"{self.fn.where(n)}: power exponent not a number")
             pp = Fraction(p.mono.c).limit_denominator(10000)
-            return Q(args[0].dim ** pp, args[0].mono ** pp)
+            k = args[0].kind if p.kind != "float" else "float"
+            if args[0].kind != "float" and p.kind != "float" and pp < 0:
+                self.r8_bad.append((n, "negative integer power of possibly-integer data"))
+            return Q(args[0].dim ** pp, args[0].mono ** pp, kind=k)
         if op in ("subtract", "add") and len(args) == 2:
             if args[0].dim != args[1].dim:
                 self.type_errors.append(f"{norm(n)[:50]}: combines {args[0].dim} and {args[1].dim}")
-            return Q(args[0].dim, Mono.opaque())
+            return Q(args[0].dim, Mono.opaque(), kind=_join_kind(args[0].kind, args[1].kind))
         raise AnalysisError(f"{self.fn.where(n)}: unsupported NumPy operation {op}")
 
     # -- statements -----------------------------------------------------------
@@ -206,7 +236,7 @@ class Interp:
             if isinstance(st, ast.Assign) and len(st.targets) == 1 and isinstance(st.targets[0], ast.Name):
                 v = self.ev(st.value)
                 if isinstance(v, Q):
-                    v = Q(v.dim, v.mono)  # a result is not "x"
+                    v = Q(v.dim, v.mono, kind=v.kind)  # a result is not "x"
                 self.env[st.targets[0].id] = v
                 continue
             if isinstance(st, ast.Return):
@@ -301,6 +331,7 @@ def check(repo: Repo) -> Result:
     r4 = res.rule("C09-R4", "every NumPy call in _convert threads out=self._get_out(x)", floor=30)
     r5 = res.rule("C09-R5", "x is not read again after the first call that may overwrite it", floor=30)
     r7 = res.rule("C09-R7", "keyword parameter defaults equal the documented defaults", floor=3)
+    r8 = res.rule("C09-R8", "no step of a formula has integer (truncating) semantics for integer input, and the result is floating point", floor=30)
 
     for tn, (cname, dims) in sorted(classes.items()):
         fn = mod.func(f"{cname}._convert")
@@ -334,6 +365,11 @@ def check(repo: Repo) -> Result:
                     res.bad(f"{label}:{norm(c)}", fn.where(c), "x is read after a call that may already have overwritten it in place", "only the previous result is used", norm(c), rid=r5)
             else:
                 res.ok(label, r5)
+            if it.r8_bad:
+                for c, why in it.r8_bad:
+                    res.bad(f"{label}:{norm(c)[:50]}", fn.where(c), f"{tn} {an} -> {bn}: {why} - integer-typed input (accepted by the copying form) is truncated instead of converted, and the copying and in-place forms disagree", "float arithmetic (np.true_divide, multiplication by a float constant, sqrt)", norm(c)[:80], rid=r8)
+            else:
+                res.check(v.kind == "float", label, fn.where(), f"{tn} {an} -> {bn}: the returned value stays integer-typed for integer input", "float", v.kind, rid=r8)
             monos[(adv, bdv)] = v.mono
             if sp:
                 a_s, b_s = spec_names.get(adv), spec_names.get(bdv)
